@@ -188,6 +188,25 @@ fn subsets(n: usize, k: usize) -> Vec<Vec<usize>> {
 }
 
 fn join_loop_job(n: usize, m: usize, kt: KeyTy, pl: Payload, dom_size: usize) -> Job {
+    let full = key_domain(kt);
+    let dom: Vec<Val> = if dom_size >= full.len() {
+        full
+    } else {
+        // keep the smallest values and the maximum
+        let mut d: Vec<Val> = full.iter().take(dom_size - 1).cloned().collect();
+        d.push(full[full.len() - 1].clone());
+        d
+    };
+    join_loop_job_dom(n, m, kt, pl, dom)
+}
+
+/// `dom` is sorted here (ascending by the harness's own key order)
+fn join_loop_job_dom(n: usize, m: usize, kt: KeyTy, pl: Payload, mut dom: Vec<Val>) -> Job {
+    dom.sort_by_key(|v| match v {
+        Val::Int(x, _) => *x,
+        _ => 0,
+    });
+    dom.dedup();
     let k = key_ty(kt);
     let (pa, pb): (Option<Ty>, Ty) = match pl {
         Payload::U8U8 => (Some(Ty::u8()), Ty::u8()),
@@ -227,15 +246,6 @@ fn join_loop_job(n: usize, m: usize, kt: KeyTy, pl: Payload, dom_size: usize) ->
         body,
     );
     // inputs: all pairs of strictly ascending key arrays; payloads distinct markers; plus one zero divisor per position of b
-    let full = key_domain(kt);
-    let dom: Vec<Val> = if dom_size >= full.len() {
-        full
-    } else {
-        // keep the smallest values and the maximum
-        let mut d: Vec<Val> = full.iter().take(dom_size - 1).cloned().collect();
-        d.push(full[full.len() - 1].clone());
-        d
-    };
     let mut inputs = vec![];
     for sa in subsets(dom.len(), n) {
         for sb in subsets(dom.len(), m) {
@@ -473,6 +483,11 @@ pub fn run(tier: Tier) -> i32 {
                 }
             }
         }
+    }
+    // the key comparator: keys that differ in one bit position / lie on both sides of every power of two
+    for (n, m) in [(2usize, 2usize), (1, 2), (2, 1)] {
+        jobs.push(join_loop_job_dom(n, m, KeyTy::U8, Payload::U8U8, (0..8).map(|k| Val::u8(1 << k)).chain([Val::u8(0), Val::u8(3), Val::u8(255)]).collect()));
+        jobs.push(join_loop_job_dom(n, m, KeyTy::U16, Payload::U8U8, (0..16).map(|k| Val::Int(1i128 << k, IntTy::U16)).chain([Val::Int(0, IntTy::U16), Val::Int(3, IntTy::U16), Val::Int(65535, IntTy::U16)]).collect()));
     }
     if tier == Tier::Thorough {
         for (n, m) in [(6, 1), (1, 6), (6, 2), (4, 5), (7, 1), (6, 3)] {
